@@ -115,6 +115,32 @@ def job_map_observers(res, n, it, fptrack):
     res.obs.append(Ob('getPastModulation leaves the pending modulation queue length unchanged (%s)' % nn, 'holds' if nn == 2 else 'violated', key='frame-getPast'))
 
 
+def job_steps_read_only_the_grid(res, n, nb, it):
+    """a transport step computes its result from the source grid (and the map's own table) only: what observers maintain on the source phase space - both projections, the bunch charges,
+    the integral, the moments and rms values - is overlaid with symbols; no target cell and no decision of the step may mention them (so it cannot matter when an observer last refreshed them)"""
+    bld = maps_build(); mod = load_module(bld, MAPS_MODS)
+    snap, R, pre = maps_world(bld, n, nb, it)
+    regs = {'proj': (R['proj_in'], 2 * nb * n), 'filling': (R['filling_in'], nb), 'integral': (R['integral_in'], 1), 'moment': (R['moment_in'], int(R['sz_moment_in'])), 'rms': (R['rms_in'], int(R['sz_rms_in']))}
+    for what in ('kmx', 'kmy', 'rflin', 'rfsin', 'drift', 'fpm', 'idm', 'drfsin'):
+        ex = Exec(mod, snap, RealDom()); st = State(); obs = []
+        for k, (a, cnt) in regs.items():
+            for i in range(cnt):
+                v = z3.Real('obs_%s_%d' % (k, i)); st.sym[a + 4 * i] = (4, 'f', v); obs.append(v); st.pc.append(v >= 0)
+        npc = len(st.pc)
+        if what in ('kmx', 'kmy'): outs_ = run_paths(ex, st, 'e_km_swap_apply', [R[what], R['offy' if what == 'kmy' else 'offx']])
+        else: outs_ = run_paths(ex, st, 'e_apply', [R[what]])
+        account(res, ex, mod, outs_)
+        names = {str(v) for v in obs}; bad = []
+        from mainsetup import syms_of
+        for s1 in outs_:
+            for c in s1.pc[npc:]:
+                if syms_of(c) & names: bad.append('a decision of the step depends on %s' % sorted(syms_of(c) & names)[:3])
+            for i, t in enumerate(get_reals(ex, s1, R['data_out'], nb * n * n)):
+                if syms_of(t) & names: bad.append('target cell %d depends on %s' % (i, sorted(syms_of(t) & names)[:3])); break
+        res.obs.append(Ob('%s n=%d nb=%d it=%d: the step reads the source grid only - no target cell and no decision depends on projections, charges, integral or moments of the source (%d path(s))' % (what, n, nb, it, len(outs_)),
+                          'holds' if not bad else 'violated', key='step-reads-grid-only', detail='; '.join(bad[:2]), cex=None if not bad else {'replay': 'structural', 'what': what, 'why': bad[:2]}))
+    res.obs.append(Ob('observer-state overlay in place (%d cells)' % sum(c for _, c in regs.values()), 'witness-ok', kind='witness'))
+
 def job_drf_noninterference(res, n, it, which):
     """Fetching the applied-modulation record (done only when a record is written) must not influence later steps: the same steps with and without
     interleaved getPastModulation() calls leave the same grid, displacement field and pending modulation (noise draws: shared symbols, one per draw)."""
@@ -144,6 +170,7 @@ def main(tier):
     chk = Check('C12', tier, '4/C12')
     jobs = [(job_ps_observers, (5, 2, 1)), (job_ps_observers, (4, 3, 2)), (job_field_observers, (4, 12, 5, (1, 0))), (job_field_observers, (4, 8, 0, (0,))), (job_h5_observers, (4, 2, 12, 2)),
             (job_map_observers, (8, 4, 1)), (job_map_observers, (8, 2, 2)), (job_map_observers, (8, 4, 3)), (job_drf_noninterference, (8, 4, 'drfsin')), (job_drf_noninterference, (8, 3, 'drflin'))]
+    jobs += [(job_steps_read_only_the_grid, (8, 2, 4)), (job_steps_read_only_the_grid, (9, 1, 2))]
     jobs += mainloop.jobs_for('C12', tier)
     K = 2 if tier == 'quick' else 3
     chk.bounds = {'frame conditions': 'write sets of symbolic runs of every observer call on small grids (4-8), all data symbolic', 'schedule independence': 'all paths of main\'s loop with <= %d iterations; symbolic cadences and presence flags' % K}
